@@ -79,3 +79,38 @@ PROPS["C10"].update({
                   "on every construction route harnessed. Tests sample a handful of names; here all 2^32 4-byte strings (and all 6-byte ASCII strings) are decided.",
     "level_note": "bounded (strings <= 4 bytes arbitrary, <= 6 bytes ASCII; 255-byte limit by separate fixed-shape harnesses); trusts Kani/CBMC, the format! stub, and the reference recognisers (validated natively against the repo's examples each run)",
 })
+
+# ------------------------------------------------------------------ probes (not claimed)
+SIG_REC = {
+    r"std::ptr::drop_glue::<zvariant::Signature>": 2,
+    r"<zvariant::Signature as std::clone::Clone>::clone": 2,
+}
+REC1 = {r"std::ptr::drop_glue::<[\w:]*Signature>": 1, r"<[\w:]*Signature as std::clone::Clone>::clone": 1}
+PROPS["PROBE"] = {"claimed": False, "groups": [{"crate": "kani/zv", "harnesses": [
+    H("p_enc_u32", timeout=900, recursion_bounds=REC1),
+    H("p_enc_yu", timeout=900, recursion_bounds=REC1),
+    H("p_dec_yu", timeout=900, recursion_bounds=REC1),
+]}]}
+
+# ------------------------------------------------------------------ C07
+ZV_INCRATE = {"crate": "/repo/zvariant", "in_repo": True, "in_crate_file": "zvariant.rs", "target": "zvariant-incrate"}
+PROPS["C07"] = {
+    "claimed": False,
+    "groups": [dict(ZV_INCRATE, harnesses=[
+        H("c07_depths_step", timeout=900, cost=120,
+          bounds="every reachable counter state (s<=32, a<=32, v<=64, sum<=64), one inc/dec step of each kind, unwind 66",
+          asserts="inc_* errs exactly when the limit is exceeded with the documented kind; dec_* inverts inc_*; no u8 overflow"),
+    ])],
+}
+REC1 = {r"std::ptr::drop_glue::<[\w:]*Signature>": 1, r"<[\w:]*Signature as std::clone::Clone>::clone": 1}
+PROPS["PROBE2"] = {"claimed": False, "groups": [{"crate": "kani/zv", "harnesses": [
+    H("q_a", timeout=400, recursion_bounds=REC1), H("q_b", timeout=400, recursion_bounds=REC1), H("q_c", timeout=400, recursion_bounds=REC1)]}]}
+PROPS["PROBE3"] = {"claimed": False, "groups": [dict(ZV_INCRATE, features=["gvariant"], target="zvariant-incrate-gv", harnesses=[
+    H("c01_padding_kernel", timeout=300), H("c05_offset_size_selection", timeout=300),
+    H("c05_offset_write_read_inverse", timeout=300), H("c04_framing_offsets_decode_total", timeout=600)])]}
+PROPS["PROBE4"] = {"claimed": False, "groups": [{"crate": "kani/zv", "harnesses": [
+    H("r1", timeout=500, recursion_bounds=REC1), H("r2", timeout=500, recursion_bounds=REC1),
+    H("r3", timeout=500, recursion_bounds=REC1), H("r4", timeout=500, recursion_bounds=REC1)]}]}
+PROPS["PROBE5"] = {"claimed": False, "groups": [{"crate": "kani/zv", "harnesses": [
+    H("r1", timeout=600, recursion_bounds=REC1, kani_args=["--no-default-checks"]),
+    H("r3", timeout=600, recursion_bounds=REC1, kani_args=["--no-default-checks"])]}]}
